@@ -375,13 +375,16 @@ Proof.
   - rewrite file_of_app, app_nil_r. reflexivity.
 Qed.
 
+(* the mutations of logFile.Truncate when it cuts: ftruncate, then fsync of the same file (F25) *)
+Definition tmuts (s o : N) : list mut := [MTruncate s o; MSync s].
+
 (* logFile.Truncate on the (clean) last file: the file keeps exactly the records with id <= k *)
 Lemma file_truncate_spec gs0 s0 g k ms :
   Forall valid_rec g -> gap_free g = true ->
   exists ms', 
     file_truncate repaired (cur_of (s0 + N.of_nat (length gs0)) g) k (dir_of s0 (gs0 ++ [g]) [], ms)
     = (0%Z, cur_of (s0 + N.of_nat (length gs0)) (keep_le k g), (dir_of s0 (gs0 ++ [keep_le k g]) [], ms ++ ms')) /\
-    (ms' = [] \/ ms' = [MTruncate (s0 + N.of_nat (length gs0)) (blen (file_of (keep_le k g)))]) /\
+    (ms' = [] \/ ms' = tmuts (s0 + N.of_nat (length gs0)) (blen (file_of (keep_le k g)))) /\
     (ms' = [] -> keep_le k g = g) /\
     (ms' <> [] -> blen (file_of (keep_le k g)) < blen (file_of g)).
 Proof.
@@ -396,10 +399,10 @@ Proof.
       assert (Hk : k < rid a) by lia.
       rewrite (keep_le_none k (a :: g) Hg Hk ltac:(discriminate)).
       assert (Elt : (k <? rid a) = true) by (apply N.ltb_lt; exact Hk). rewrite Elt.
-      exists [MTruncate (s0 + N.of_nat (length gs0)) 0].
+      exists (tmuts (s0 + N.of_nat (length gs0)) 0).
       split; [|split; [right; reflexivity|split; [discriminate|]]].
       2:{ intros _. rewrite file_of_blen_cons. assert (E0 : blen (file_of []) = 0) by reflexivity. lia. }
-      unfold emit. cbn [fst snd apply_mut].
+      unfold emit, tmuts. cbn [fst snd apply_mut]. rewrite <- (app_assoc ms). cbn [app].
       pose proof (fs_truncate_last gs0 s0 [] (a :: g)) as Ht. unfold blen in Ht. cbn [app file_of flat_map length] in Ht.
       change (N.of_nat 0) with 0 in Ht. rewrite Ht. reflexivity.
     + (* cut after the record with id k *)
@@ -422,12 +425,12 @@ Proof.
       rewrite E, <- Hrk. rewrite offset_after_found by (intros x Hx; pose proof (HA x Hx); lia).
       rewrite N.add_0_l.
       assert (Elt : (rid rk <? rid a) = false) by (apply N.ltb_ge; lia). rewrite Elt.
-      exists [MTruncate (s0 + N.of_nat (length gs0)) (blen (file_of (A ++ [rk])))].
+      exists (tmuts (s0 + N.of_nat (length gs0)) (blen (file_of (A ++ [rk])))).
       split; [|split; [right; reflexivity|split; [discriminate|]]].
       2:{ intros _. destruct B as [|b0 B']; [congruence|].
           change (A ++ rk :: b0 :: B') with (A ++ [rk] ++ b0 :: B'). rewrite app_assoc.
           rewrite (file_of_app (A ++ [rk]) (b0 :: B')), blen_app, (file_of_blen_cons b0 B'). lia. }
-      unfold emit. cbn [fst snd apply_mut].
+      unfold emit, tmuts. cbn [fst snd apply_mut]. rewrite <- (app_assoc ms). cbn [app].
       change (A ++ rk :: B) with (A ++ [rk] ++ B). rewrite app_assoc.
       rewrite fs_truncate_last. f_equal. f_equal.
       rewrite cf_empty_cur_of.
@@ -507,7 +510,7 @@ Lemma truncate_step maxsz l d acked s0 gs k :
     = (0%Z, l', dir_of s0 (G ++ [keep_le k gn]) [],
        flat_map unlink_pair (rev (map fi_seq (infos_of (s0 + N.of_nat (S n)) D))) ++ T) /\
     refresh l' = log_of s0 (G ++ [keep_le k gn]) maxsz /\
-    (T = [] \/ T = [MTruncate (s0 + N.of_nat n) (blen (file_of (keep_le k gn)))]) /\
+    (T = [] \/ T = tmuts (s0 + N.of_nat n) (blen (file_of (keep_le k gn)))) /\
     (T = [] -> keep_le k gn = gn) /\
     (T <> [] -> blen (file_of (keep_le k gn)) < blen (file_of gn)).
 Proof.
@@ -671,7 +674,7 @@ Qed.
 
 (* ---------- Truncate: crash states ---------- *)
 Lemma crash_fs_app_le d U T j cut :
-  (j <= length U)%nat -> (T = [] \/ exists s o, T = [MTruncate s o]) ->
+  (j <= length U)%nat -> (T = [] \/ exists s o r, T = MTruncate s o :: r) ->
   crash_fs d (U ++ T) j cut = crash_fs d U j cut.
 Proof.
   intros Hj HT. unfold crash_fs.
@@ -679,7 +682,7 @@ Proof.
   destruct (Nat.eq_dec j (length U)) as [->|Hne].
   - assert (E1 : nth_error U (length U) = None) by (apply nth_error_None; lia). rewrite E1.
     rewrite nth_error_app2, Nat.sub_diag by lia.
-    destruct HT as [->|(s & o & ->)]; destruct cut; reflexivity.
+    destruct HT as [->|(s & o & r & ->)]; destruct cut; reflexivity.
   - rewrite nth_error_app1 by lia. reflexivity.
 Qed.
 
@@ -708,8 +711,8 @@ Proof.
   { rewrite app_length. unfold G. rewrite firstn_length. cbn [length]. lia. }
   destruct (truncate_facts k gs Hc Hg) as [Hf (restgn & Hrest)]. fold n G gn in Hf, Hrest.
   rewrite (li_fs _ _ _ _ _ _ Hinv).
-  assert (HTT : T = [] \/ exists s o, T = [MTruncate s o]).
-  { destruct HT as [-> | ->]; [left; reflexivity|right; eauto]. }
+  assert (HTT : T = [] \/ exists s o r, T = MTruncate s o :: r).
+  { destruct HT as [-> | ->]; [left; reflexivity|right; unfold tmuts; eauto]. }
   destruct (Nat.le_gt_cases j (length U)) as [Hle|Hgt].
   - (* while (or before) the files after the kept one are deleted, from the back *)
     rewrite crash_fs_app_le by assumption.
@@ -729,14 +732,19 @@ Proof.
     + exists [], (concat (skipn (S n + q) gs)). cbn [app]. rewrite <- Ha. apply concat_firstn_skipn.
   - (* after the cut inside the kept file: the final state *)
     destruct HT as [->|ET]; [rewrite app_nil_r in Hj; lia|].
-    assert (Hj2 : j = S (length U)) by (rewrite ET, app_length in Hj; cbn [length] in Hj; lia).
+    assert (Hj2 : j = S (length U) \/ j = S (S (length U))) by (rewrite ET, app_length in Hj; cbn [length tmuts] in Hj; lia).
     rewrite crash_fs_app_ge by lia.
     assert (HU : apply_muts (dir_of s0 gs []) U = dir_of s0 (G ++ [gn]) []).
     { rewrite Egs at 1. unfold U. rewrite <- HlenK. apply apply_unlinks_back. destruct G; discriminate. }
-    rewrite HU. replace (j - length U)%nat with 1%nat by lia.
-    rewrite ET. unfold crash_fs. cbn [firstn nth_error].
+    rewrite HU.
     assert (Hx : forall (X : fs), (match cut with Some _ => X | None => X end) = X) by (intros; destruct cut; reflexivity).
-    rewrite Hx. unfold apply_muts. cbn [fold_left apply_mut].
+    assert (Est : crash_fs (dir_of s0 (G ++ [gn]) []) T (j - length U) cut
+                  = apply_mut (dir_of s0 (G ++ [gn]) []) (MTruncate (s0 + N.of_nat n) (blen (file_of (keep_le k gn))))).
+    { rewrite ET. unfold tmuts, crash_fs.
+      destruct Hj2 as [-> | ->].
+      - replace (S (length U) - length U)%nat with 1%nat by lia. cbn [firstn nth_error]. rewrite Hx. reflexivity.
+      - replace (S (S (length U)) - length U)%nat with 2%nat by lia. cbn [firstn nth_error]. rewrite Hx. reflexivity. }
+    rewrite Est. cbn [apply_mut].
     assert (HlenG : length G = n) by (unfold G; rewrite firstn_length; lia).
     rewrite <- HlenG. rewrite Hrest at 1. rewrite fs_truncate_last.
     pose proof (truncate_linv maxsz l d acked s0 gs k (log_of s0 (G ++ [keep_le k gn]) maxsz) Hinv (refresh_log_of _ _ _)) as Hinv'.
